@@ -43,7 +43,7 @@ m = {"version": 1,
                "source_commits": [], "add_only": True},
      "engines": [{"name": "tlc-trace", "path": "harness/tlc.py", "serves_properties": sorted(CHECKS), "kind_free_text": "TLC 1.8 model checking + batched trace validation (spec/*.tla)"}],
      "checks": [], "not_applicable": [],
-     "notes": "bin/check <ID> honours VERIF_TIER / VERIF_SEED; exit 2 = machinery failure. Known findings: known_findings.json."}
+     "notes": "bin/check <ID> honours VERIF_TIER / VERIF_SEED; exit 2 = machinery failure. Known findings: known_findings.json. Every trace-based check also runs a share of a 2-way covering array over 13 configuration dimensions (harness/scenlib.py pairwise_cases; all of it in the thorough tier and in C16); independently written seeded changes and the checks that report them: seeded/README.md."}
 for i in ids:
     if i in CHECKS:
         cat, text, ref, tech = CHECKS[i]
